@@ -61,7 +61,7 @@ fn random_bytes(r: &mut Rng) -> Vec<u8> {
 
 pub fn run(ctx: &mut Ctx) {
     let prop = "C15";
-    ctx.ev.rule = "(a) validator: generated transactions with zero/negative quantities, prices, fees, totals and ratios: validate() reports an error iff the property's predicate holds; compared with the Lean model's error count. (b) library under catch_unwind with a time limit: parse_file on arbitrary byte strings (random bytes, DSL alphabet soup, one-byte corruptions, non-ASCII) and calculate() on hostile ledgers (zero quantities and prices, 1e-28, magnitudes up to 7.9e28, sells first, dates 0001-01-01/9999-12-31/range edges): Ok or Err, never a panic — except inside known-finding class overflowMagnitude (D9). (d) the MCP tools: one pipelined session per 24 requests of malformed JSON texts (raw newlines inside strings, truncated arrays, BOM), hostile ledgers and random bytes over calculate_report, parse_transactions, convert_to_dsl, explain_matching: every request id answered exactly once, clean exit. (e) the Schwab converter in-process on generated exports (free text of up to 200 mixed-width characters), with and without an awards file, and on damaged JSON: a result or an error, never a panic. (c) the real binary: the same inputs as files, missing files, unwritable and pre-existing --output paths, default PDF path with an existing file: on failure non-zero exit (not 101, no signal), empty stdout, --output untouched; on success exit 0. Non-trivial = inputs that are rejected cleanly, and validator cases with ≥ 1 bad field; distinct by input.".into();
+    ctx.ev.rule = "(a) validator: generated transactions with zero/negative quantities, prices, fees, totals and ratios: validate() reports an error iff the property's predicate holds; compared with the Lean model's error count. (b) library under catch_unwind with a time limit: parse_file on arbitrary byte strings (random bytes, DSL alphabet soup, one-byte corruptions, non-ASCII) and calculate() on hostile ledgers (zero quantities and prices, 1e-28, magnitudes up to 7.9e28, sells first, dates 0001-01-01/9999-12-31/range edges): Ok or Err, never a panic — except inside known-finding class overflowMagnitude (D9). (d) the MCP tools: one pipelined session per 24 requests of malformed JSON texts (raw newlines inside strings, truncated arrays, BOM), hostile ledgers and random bytes over calculate_report, parse_transactions, convert_to_dsl, explain_matching: every request id answered exactly once, clean exit. (e) the Schwab converter in-process on generated exports (free text of up to 200 mixed-width characters), with and without an awards file, and on damaged JSON: a result or an error, never a panic. (c) the real binary: the same inputs as files, missing files (alone and among several inputs, as are a directory and a non-UTF-8 file), unwritable and pre-existing --output paths, default PDF path with an existing file: on failure non-zero exit (not 101, no signal), empty stdout, --output untouched; on success exit 0. Non-trivial = inputs that are rejected cleanly, and validator cases with ≥ 1 bad field; distinct by input.".into();
 
     // (e) the converter, in-process under catch_unwind: generated Schwab exports (every row kind, hostile
     // spellings, free text of up to 200 mixed-width characters), the same with an awards file, and damaged
@@ -174,6 +174,15 @@ pub fn run(ctx: &mut Ctx) {
             }
         };
         check_fail(ctx, &["report", "missing.cgt"], None, "missing input file");
+        // one unreadable input among several: the run fails, nothing is reported for the files that were read
+        std::fs::create_dir_all(s.path("a_directory.cgt")).expect("mkdir");
+        std::fs::write(s.path("latin1.cgt"), b"2024-01-01 BUY CAF\xC9 10 @ 5\n").expect("write");
+        check_fail(ctx, &["report", "good.cgt", "missing.cgt"], None, "a missing file among several inputs");
+        check_fail(ctx, &["report", "missing.cgt", "good.cgt", "--format", "json"], None, "a missing file first among several inputs");
+        check_fail(ctx, &["parse", "good.cgt", "a_directory.cgt"], None, "a directory among several inputs");
+        check_fail(ctx, &["report", "good.cgt", "latin1.cgt", "--output", "keep.txt"], Some("keep.txt"), "a file that is not UTF-8 among several inputs, with --output");
+        check_fail(ctx, &["report", "good.cgt", "missing.cgt", "--format", "pdf"], None, "a missing file among several inputs, PDF to the default path");
+        if s.path("report.pdf").exists() { ctx.ev.violation("oracle", "a failing multi-file PDF run left ./report.pdf behind".into(), "# property C15\n# CLI: cgt-tool report good.cgt missing.cgt --format pdf\n".into()); }
         check_fail(ctx, &["report", "bad.cgt", "--output", "keep.txt"], Some("keep.txt"), "uncovered sale with --output on an existing file");
         check_fail(ctx, &["report", "syntax.cgt", "--format", "json", "--output", "keep.txt"], Some("keep.txt"), "syntax error with --output");
         check_fail(ctx, &["report", "good.cgt", "--output", "no/such/dir/out.txt"], None, "unwritable output path");
